@@ -956,3 +956,220 @@ macro_rules! subsets_scenario {
 subsets_scenario!(C12Subsets, "subsets", 2500, 30000);
 subsets_scenario!(C12XmodEnumeral, "xmod-enumeral", 300, 3000);
 subsets_scenario!(C12XmodName, "xmod-name", 300, 3000);
+
+// =====================================================================  tag-keywords
+//
+// "Tagging defaults never leak from one module into another", as a relation between two
+// compilations of the same set: in every module that says EXPLICIT TAGS, a tag written without a
+// keyword means EXPLICIT. Writing that keyword out changes nothing in the module itself — and it
+// must change nothing in any OTHER module either, in particular not in a module with another
+// default that inherits those members with COMPONENTS OF or instantiates a template that carries
+// them. (Only EXPLICIT is spelled out: `[n] EXPLICIT T` is legal for every T, whereas
+// `[n] IMPLICIT T` is not when T is a CHOICE or an open type.)
+
+#[derive(Clone, Debug, Serialize, Deserialize, PartialEq)]
+pub struct TagPlan {
+    pub seed: u64,
+    pub set: ModuleSet,
+    pub cfg: RasnCfg,
+    /// order in which the modules are handed over
+    pub order: Vec<usize>,
+    pub one_literal: bool,
+    pub sim: SimCfg,
+}
+
+/// `text` with the keyword EXPLICIT written after every tag that has none
+pub fn spell_out_explicit(text: &str) -> (String, usize) {
+    let b = text.as_bytes();
+    let map = gen::token_map(text);
+    let mut out = String::with_capacity(text.len() + 64);
+    let mut n = 0;
+    let mut i = 0;
+    let mut copied = 0;
+    // Only the tags of the assignment's own type and of its DIRECT components are spelled out
+    // (brace depth 0, and depth 1 of a SEQUENCE / SET / CHOICE): the compiler applies a module's
+    // default to exactly those and leaves the tags of nested anonymous types at IMPLICIT whatever
+    // the default says — a defect against C03 ("at every nesting depth"), which is not decided
+    // here; it would make this relation fail inside the EXPLICIT module itself (DESIGN 10.2).
+    let rhs = text.find("::=").map_or(0, |k| k + 3);
+    let head: Vec<&str> = text[rhs..].split_whitespace().filter(|t| !t.starts_with('[') && !t.ends_with(']') && !matches!(*t, "IMPLICIT" | "EXPLICIT" | "APPLICATION" | "PRIVATE" | "UNIVERSAL")).take(2).collect();
+    let structured = matches!(head.first().copied(), Some("SEQUENCE") | Some("SET") | Some("CHOICE")) && head.get(1).is_some_and(|t| t.starts_with('{'));
+    let mut depth = 0usize;
+    let mut in_group = false;
+    while i < b.len() {
+        if map[i] == gen::ByteClass::Token {
+            match b[i] {
+                b'{' => depth += 1,
+                b'}' => depth = depth.saturating_sub(1),
+                b'[' if b.get(i + 1) == Some(&b'[') => in_group = true,
+                b']' if b.get(i + 1) == Some(&b']') => in_group = false,
+                _ => {}
+            }
+        }
+        let reachable = i >= rhs && !in_group && (depth == 0 || (depth == 1 && structured));
+        if reachable && b[i] == b'[' && map[i] == gen::ByteClass::Token && b.get(i + 1) != Some(&b'[') && (i == 0 || b[i - 1] != b'[') {
+            if let Some(len) = text[i..].find(']') {
+                let inner = text[i + 1..i + len].trim();
+                let num = inner.rsplit(' ').next().unwrap_or("");
+                let class = inner[..inner.len() - num.len()].trim();
+                let is_tag = !num.is_empty() && num.bytes().all(|c| c.is_ascii_digit()) && matches!(class, "" | "APPLICATION" | "PRIVATE" | "UNIVERSAL" | "CONTEXT");
+                if is_tag {
+                    let after = text[i + len + 1..].trim_start();
+                    if !(after.starts_with("IMPLICIT") || after.starts_with("EXPLICIT")) {
+                        out.push_str(&text[copied..i + len + 1]);
+                        out.push_str(" EXPLICIT");
+                        copied = i + len + 1;
+                        n += 1;
+                    }
+                    i += len + 1;
+                    continue;
+                }
+            }
+        }
+        i += 1;
+    }
+    out.push_str(&text[copied..]);
+    (out, n)
+}
+
+fn tag_texts(p: &TagPlan, spelled: bool) -> (Vec<String>, usize) {
+    let mut set = p.set.clone();
+    let mut n = 0;
+    if spelled {
+        for m in set.modules.iter_mut().filter(|m| m.tags == "EXPLICIT") {
+            for a in m.assigns.iter_mut() {
+                let (t, k) = spell_out_explicit(&a.text);
+                a.text = t;
+                n += k;
+            }
+        }
+    }
+    let texts: Vec<String> = p.order.iter().filter(|i| **i < set.modules.len()).map(|i| set.modules[*i].text(&set.modules)).collect();
+    (if p.one_literal { vec![texts.join("\n")] } else { texts }, n)
+}
+
+pub struct C12TagKeywords;
+
+impl Scenario for C12TagKeywords {
+    fn property(&self) -> &'static str {
+        "C12"
+    }
+    fn name(&self) -> &'static str {
+        "tag-keywords"
+    }
+    fn runs(&self, tier: Tier) -> u64 {
+        match tier {
+            Tier::Quick => 1500,
+            Tier::Thorough => 30000,
+        }
+    }
+    fn plan(&self, seed: u64, _idx: u64, _tier: Tier, _env: &Env) -> Value {
+        let root = Rng::new(seed);
+        let mut w = root.fork("workload");
+        let mut cfg = c12_gen_cfg();
+        cfg.value_import_bias = w.chance(1, 4);
+        let mut set = gen::generate(&mut w, &cfg);
+        // at least one module says EXPLICIT TAGS — preferably one that others import from — and
+        // at least one says something else
+        let n = set.modules.len();
+        let exporters: Vec<usize> = (0..n).filter(|i| set.modules.iter().any(|m| m.imports.iter().any(|im| im.from == set.modules[*i].name))).collect();
+        let e = if !exporters.is_empty() && w.chance(4, 5) { *w.pick(&exporters) } else { w.below(n) };
+        set.modules[e].tags = "EXPLICIT".into();
+        let others: Vec<usize> = (0..n).filter(|i| *i != e).collect();
+        if !others.iter().any(|i| set.modules[*i].tags != "EXPLICIT") {
+            let o = *w.pick(&others);
+            set.modules[o].tags = w.pick(&["IMPLICIT", "AUTOMATIC"]).to_string();
+        }
+        let order = w.permutation(n);
+        let mut simcfg = SimCfg::simple(root.fork("schedule").next_u64());
+        simcfg.entropy = root.fork("hashkeys").next_u64();
+        let rcfg = if w.chance(1, 2) { RasnCfg::default_cfg() } else { RasnCfg::random(&mut w) };
+        serde_json::to_value(&TagPlan { seed, set, cfg: rcfg, order, one_literal: w.chance(1, 3), sim: simcfg }).unwrap()
+    }
+
+    fn execute(&self, plan: &Value, _refs: &Value, root: &str, _env: &Env) -> Outcome {
+        let p: TagPlan = serde_json::from_value(plan.clone()).expect("tag plan");
+        let mut out = Outcome::default();
+        std::env::remove_var("CARGO");
+        std::env::set_var("CARGO_HOME", format!("{root}/cargo-home"));
+        let (plain, _) = tag_texts(&p, false);
+        let (spelled, n_spelled) = tag_texts(&p, true);
+        out.count("tags_spelled_out", n_spelled as u64);
+        if n_spelled == 0 {
+            out.count("trivial.no_tag_without_keyword_in_an_explicit_module", 1);
+            return out;
+        }
+        let be = BackendSel::Rasn(p.cfg.clone());
+        let (a_src, b_src): (Vec<Src>, Vec<Src>) = (plain.into_iter().map(Src::Literal).collect(), spelled.into_iter().map(Src::Literal).collect());
+        let be2 = be.clone();
+        let body: sim::Body<(CompileOut, CompileOut)> = Box::new(move || {
+            sim::op_begin("as-written");
+            let a = sut::compile_to_string(&be2, &a_src, &BuilderPath::default());
+            sim::op_end("as-written");
+            sim::op_begin("keywords-spelled-out");
+            let b = sut::compile_to_string(&be2, &b_src, &BuilderPath::default());
+            sim::op_end("keywords-spelled-out");
+            (a, b)
+        });
+        let (mut results, rep) = sim::run_sim(&p.sim, None, root, vec![body]);
+        out.steps = rep.sched.steps + rep.events.len() as u64;
+        let Some((a, b)) = results.pop().flatten() else {
+            out.harness_error = Some("sim thread died".into());
+            return out;
+        };
+        out.log_hash = fnv1a(format!("{}|{}", a.brief(), b.brief()).as_bytes());
+        out.sigs.push(mix(p.seed, n_spelled as u64));
+        out.sample = Some(json!({"modules": p.set.modules.iter().map(|m| format!("{} {} TAGS", m.name, m.tags)).collect::<Vec<_>>(), "tags_spelled_out": n_spelled, "as_written": a.brief(), "spelled_out": b.brief()}));
+        if a.panic.is_some() || b.panic.is_some() {
+            out.inconclusive.push(format!("panic: {} / {}", a.brief(), b.brief()));
+            return out;
+        }
+        if !a.ok || !b.ok {
+            out.count("not_judged.does_not_compile", 1);
+            return out;
+        }
+        let (Ok(ba), Ok(bb)) = (proj::rust_modules(&a.generated), proj::rust_modules(&b.generated)) else {
+            out.count("not_judged.output_does_not_parse", 1);
+            return out;
+        };
+        out.count("compared_sets", 1);
+        for blk in &ba {
+            let Some(other) = bb.iter().find(|x| x.name == blk.name) else {
+                out.violate("defaults-do-not-leak", format!("module block {} disappears when the EXPLICIT keywords of the modules that say EXPLICIT TAGS are spelled out", blk.name));
+                continue;
+            };
+            out.count("compared_blocks", 1);
+            if other.text != blk.text {
+                let explicit: Vec<&String> = p.set.modules.iter().filter(|m| m.tags == "EXPLICIT").map(|m| &m.name).collect();
+                out.violate(
+                    "defaults-do-not-leak",
+                    format!(
+                        "the bindings of module block {} change when {n_spelled} tags of the EXPLICIT TAGS modules {:?} get their keyword written out (which is what they mean already): {}; modules {:?}, handed over in order {:?}{}",
+                        blk.name,
+                        explicit,
+                        first_diff(&blk.text, &other.text),
+                        p.set.modules.iter().map(|m| format!("{} {} TAGS", m.name, if m.tags.is_empty() { "(no)" } else { &m.tags })).collect::<Vec<_>>(),
+                        p.order,
+                        if p.one_literal { " as one literal" } else { "" }
+                    ),
+                );
+            }
+        }
+        out
+    }
+
+    fn shrink(&self, plan: &Value) -> Vec<Value> {
+        let p: TagPlan = serde_json::from_value(plan.clone()).unwrap();
+        let mut out = vec![];
+        for mi in 0..p.set.modules.len() {
+            for ai in (0..p.set.modules[mi].assigns.len()).rev() {
+                if let Some(s2) = p.set.without_assign(mi, ai) {
+                    let mut q = p.clone();
+                    q.set = s2;
+                    out.push(serde_json::to_value(&q).unwrap());
+                }
+            }
+        }
+        out
+    }
+}
